@@ -15,6 +15,9 @@ arbitrary environment and arbitrary argument blocks: nothing about the arguments
   the chosen one have no influence: they are not run), `coalesce_empty`.
 * `context_independent` — both macros depend on the environment and the callback only, not on where
   they are called from (`this`, the fresh-interpreter callback used for loop variables).
+* `path_eval`, `has_path` — how a field path `r.f₁.….fₙ` of any length evaluates on the VM model: Binding
+  for an unbound root, Attribute for a missing key or a non-map intermediate, the value (also `null`)
+  otherwise (`field_present`, `field_missing_key`, `field_not_a_map`, `readPath_root_unbound`).
 -/
 namespace Rscel
 namespace C08
@@ -252,6 +255,276 @@ theorem context_independent (recTop' : Rec) (env : Env) (this this' : Val) (args
 theorem never_folded (e : Env) (h : e.compileMode = true) :
     e.isMacro "has".toList = false ∧ e.isMacro "coalesce".toList = false := by
   simp [Env.isMacro, h, compileMacros]
+
+theorem macro_free_runAt (B : Builtins) (b : Nat) (env : Env) (code : List Instr) (resolve : Bool) (log : Log) :
+    runAt B (b + 1) env code resolve log =
+      match loop B (runAt B b) (runAt B b) env code (blockFuel code) 0 { stack := [], log := log } with
+      | .fail a l => { res := .error a, log := l }
+      | .ok _ s => finish (runAt B b) env resolve s := rfl
+
+/-! ### Field paths on the VM model
+
+How `r.f₁.….fₙ` — the code `PUSH r; PUSH f₁; ACCESS; …; PUSH fₙ; ACCESS` the compiler emits — evaluates,
+for a path of any length over any bound data: Binding for an unbound root, Attribute for a missing key
+or a non-map intermediate, the failure itself when an intermediate already failed, the value (`null`
+included) otherwise.  Together with `has_spec` this classifies `has(path)`. -/
+
+/-- Reading one field of a value. -/
+def field (obj : Val) (f : Str) : Val :=
+  match obj with
+  | .map m => (match Map.get m f with | some v => v | none => .err .attribute)
+  | .err k => .err k
+  | _ => .err .attribute
+
+/-- What the root identifier denotes: a type, a bound variable, or a Binding failure. -/
+def rootVal (env : Env) (r : Str) : Val :=
+  match env.getType r with
+  | some t => t
+  | none => match env.getParam r with | some v => v | none => .err .binding
+
+/-- The value of the path: the fields read one after the other. -/
+def readPath (env : Env) (r : Str) (fs : List Str) : Val := fs.foldl field (rootVal env r)
+
+def fieldsCode (fs : List Str) : List Instr := fs.flatMap fun f => [.push (.ident f), .access]
+def pathCode (r : Str) (fs : List Str) : List Instr := .push (.ident r) :: fieldsCode fs
+
+theorem fieldsCode_length : ∀ fs : List Str, (fieldsCode fs).length = 2 * fs.length
+  | [] => rfl
+  | f :: fs => by
+    have : fieldsCode (f :: fs) = .push (.ident f) :: .access :: fieldsCode fs := by simp [fieldsCode]
+    rw [this]; simp [fieldsCode_length fs]; omega
+
+/-- No value met along the path is itself an identifier (identifiers are not data). -/
+def PathOk : Val → List Str → Prop
+  | _, [] => True
+  | v, f :: fs => (∀ s, field v f ≠ .ident s) ∧ PathOk (field v f) fs
+
+section path
+variable {B : Builtins} {recTop : Rec} {rec : Rec}
+
+/-- what a stack token denotes when popped -/
+def tokVal (env : Env) : Val → Val
+  | .ident n => rootVal env n
+  | v => v
+
+theorem popV_tok (env : Env) (t : Val) (st : List SVal) (log : Log)
+    (ht : (∃ r, t = .ident r ∧ env.getProg r = none) ∨ (∀ s, t ≠ .ident s)) :
+    popV rec env { stack := .val t :: st, log := log } = .ok (tokVal env t) { stack := st, log := log } := by
+  rcases ht with ⟨r, rfl, hp⟩ | hni
+  · unfold popV popS
+    simp only [tokVal, rootVal, hp]
+    cases h1 : env.getType r with
+    | some ty => rfl
+    | none =>
+      cases h2 : env.getParam r with
+      | some v => rfl
+      | none => rfl
+  · unfold popV popS
+    cases t <;> first | rfl | exact absurd rfl (hni _)
+
+theorem getElem?_at (pre : List Instr) (x : Instr) (rest : List Instr) :
+    (pre ++ x :: rest)[pre.length]? = some x := by simp
+
+theorem getElem?_at1 (pre : List Instr) (x y : Instr) (rest : List Instr) :
+    (pre ++ x :: y :: rest)[pre.length + 1]? = some y := by
+  rw [List.getElem?_append_right (by omega)]; simp
+
+/-- `PUSH f; ACCESS` on a stack holding one token: the field of what the token denotes. -/
+theorem access_steps (env : Env) (hb : env.hasBinds = true) (pre rest : List Instr) (f : Str) (t : Val)
+    (fuel : Nat) (log : Log) (hc : env.callable B f = none)
+    (ht : (∃ r, t = .ident r ∧ env.getProg r = none) ∨ (∀ s, t ≠ .ident s)) :
+    loop B rec recTop env (pre ++ .push (.ident f) :: .access :: rest) (fuel + 2) pre.length
+        { stack := [.val t], log := log } =
+      loop B rec recTop env (pre ++ .push (.ident f) :: .access :: rest) fuel (pre.length + 2)
+        { stack := [.val (field (tokVal env t) f)], log := log } := by
+  rw [loop]
+  simp only [getElem?_at]
+  rw [step]
+  simp only [pushV]
+  rw [loop]
+  simp only [getElem?_at1]
+  rw [step]
+  simp only [popRaw, popV_tok env t [] log ht]
+  cases hv : tokVal env t with
+  | map m =>
+    simp only [field]
+    cases Map.get m f with
+    | some v => rfl
+    | none => simp only [hc]; rfl
+  | err k => simp [field, hb, hc, Val.isErr, pushV]
+  | _ => simp [field, hb, hc, Val.isErr, pushV]
+
+def endTok (env : Env) : Val → List Str → Val
+  | t, [] => t
+  | t, f :: fs => endTok env (field (tokVal env t) f) fs
+
+theorem run_fields (env : Env) (hb : env.hasBinds = true) :
+    ∀ (fs : List Str) (pre : List Instr) (t : Val) (fuel : Nat) (log : Log),
+      2 * fs.length ≤ fuel → (∀ f ∈ fs, env.callable B f = none) →
+      ((∃ r, t = .ident r ∧ env.getProg r = none) ∨ (∀ s, t ≠ .ident s)) → PathOk (tokVal env t) fs →
+      loop B rec recTop env (pre ++ fieldsCode fs) fuel pre.length { stack := [.val t], log := log } =
+        .ok () { stack := [.val (endTok env t fs)], log := log }
+  | [], pre, t, fuel, log, _, _, _, _ => by
+    simp only [fieldsCode, List.flatMap_nil, List.append_nil, endTok]
+    cases fuel with
+    | zero => rw [loop]; simp
+    | succ n => rw [loop]; simp
+  | f :: fs, pre, t, fuel, log, hf, hc, ht, hok => by
+    obtain ⟨n, rfl⟩ : ∃ n, fuel = n + 2 := ⟨fuel - 2, by simp at hf; omega⟩
+    have hcode : pre ++ fieldsCode (f :: fs) = pre ++ .push (.ident f) :: .access :: fieldsCode fs := by
+      simp [fieldsCode]
+    rw [hcode, access_steps env hb pre (fieldsCode fs) f t n log (hc f (by simp)) ht]
+    have hcode' : pre ++ .push (.ident f) :: .access :: fieldsCode fs =
+        (pre ++ [.push (.ident f), .access]) ++ fieldsCode fs := by simp
+    have hlen : pre.length + 2 = (pre ++ [Instr.push (.ident f), Instr.access]).length := by simp
+    rw [hcode', hlen]
+    have hni : ∀ s, field (tokVal env t) f ≠ .ident s := hok.1
+    have := run_fields env hb fs (pre ++ [.push (.ident f), .access]) (field (tokVal env t) f) n log
+      (by simp at hf; omega) (fun g hg => hc g (by simp [hg])) (.inr hni)
+      (by
+        have : tokVal env (field (tokVal env t) f) = field (tokVal env t) f := by
+          cases h : field (tokVal env t) f <;> first | rfl | exact absurd h (hni _)
+        rw [this]; exact hok.2)
+    rw [this]; rfl
+
+theorem endTok_val (env : Env) : ∀ (fs : List Str) (t : Val), PathOk (tokVal env t) fs →
+    tokVal env (endTok env t fs) = fs.foldl field (tokVal env t)
+  | [], _, _ => rfl
+  | f :: fs, t, hok => by
+    have hni : ∀ s, field (tokVal env t) f ≠ .ident s := hok.1
+    have h1 : tokVal env (field (tokVal env t) f) = field (tokVal env t) f := by
+      cases h : field (tokVal env t) f <;> first | rfl | exact absurd h (hni _)
+    rw [endTok, List.foldl_cons, endTok_val env fs _ (by rw [h1]; exact hok.2), h1]
+
+theorem endTok_tok (env : Env) (r : Str) (hp : env.getProg r = none) : ∀ (fs : List Str),
+    PathOk (rootVal env r) fs →
+    ((∃ r', endTok env (.ident r) fs = .ident r' ∧ env.getProg r' = none) ∨ (∀ s, endTok env (.ident r) fs ≠ .ident s))
+  | [], _ => .inl ⟨r, rfl, hp⟩
+  | f :: fs, hok => by
+    right
+    have hni : ∀ s, field (rootVal env r) f ≠ .ident s := hok.1
+    -- after the first field no token is an identifier any more
+    have key : ∀ (gs : List Str) (v : Val), (∀ s, v ≠ .ident s) → PathOk v gs → ∀ s, endTok env v gs ≠ .ident s := by
+      intro gs
+      induction gs with
+      | nil => intro v hv _; exact hv
+      | cons g gs ih =>
+        intro v hv hk
+        have hv' : tokVal env v = v := by cases h : v <;> first | rfl | exact absurd h (hv _)
+        rw [endTok, hv']
+        exact ih _ hk.1 hk.2
+    exact key fs _ hni hok.2
+
+/-- **A field path evaluates to what the data says.**  For a root that is not a stored program, field
+    names that are not function or macro names, and data without identifier values, at any depth budget
+    ≥ 1: the outcome is the value of the path, a failing value being the failure; the call log is untouched. -/
+theorem path_eval (b : Nat) (env : Env) (r : Str) (fs : List Str) (log : Log)
+    (hb : env.hasBinds = true) (hp : env.getProg r = none)
+    (hc : ∀ f ∈ fs, env.callable B f = none) (hok : PathOk (rootVal env r) fs) :
+    runAt B (b + 1) env (pathCode r fs) true log =
+      { res := (match readPath env r fs with
+                | .err k => .error (.err k)
+                | v => .ok v),
+        log := log } := by
+  have hrun := run_fields (B := B) (recTop := runAt B b) (rec := runAt B b) env hb fs [.push (.ident r)]
+    (.ident r) (blockFuel (pathCode r fs) - 1) log
+    (by simp only [blockFuel, pathCode, List.length_cons, fieldsCode_length]; omega) hc (.inl ⟨r, rfl, hp⟩) hok
+  have hfirst : loop B (runAt B b) (runAt B b) env (pathCode r fs) (blockFuel (pathCode r fs)) 0
+      { stack := [], log := log } =
+      loop B (runAt B b) (runAt B b) env ([.push (.ident r)] ++ fieldsCode fs) (blockFuel (pathCode r fs) - 1) 1
+        { stack := [.val (.ident r)], log := log } := by
+    have : blockFuel (pathCode r fs) = (blockFuel (pathCode r fs) - 1) + 1 := by simp [blockFuel]
+    rw [this, loop]
+    simp [pathCode, step, pushV]
+  rw [macro_free_runAt, hfirst]
+  simp only [List.length_singleton] at hrun
+  rw [hrun]
+  -- the final pop
+  have hv := endTok_val env fs (.ident r) hok
+  have ht := endTok_tok env r hp fs hok
+  unfold finish
+  simp only [if_true]
+  have hpop : popS (runAt B b) env { stack := [.val (endTok env (.ident r) fs)], log := log } =
+      .ok (.val (tokVal env (endTok env (.ident r) fs))) { stack := [], log := log } := by
+    have := popV_tok (rec := runAt B b) env (endTok env (.ident r) fs) [] log ht
+    unfold popV at this
+    split at this
+    · rename_i v s' h; cases this; exact h
+    · cases this
+    · cases this
+  rw [hpop, hv]
+  show _ = _
+  unfold readPath
+  simp only [tokVal]
+  cases List.foldl field (rootVal env r) fs <;> rfl
+
+/-- **`has(path)`** on the VM model: `true` when the path has a value, `false` when the root is unbound
+    or a field is missing, the failure itself when an intermediate value had already failed otherwise. -/
+theorem has_path (b : Nat) (env : Env) (this : Val) (r : Str) (fs : List Str) (log : Log)
+    (hb : env.hasBinds = true) (hp : env.getProg r = none)
+    (hc : ∀ f ∈ fs, env.callable B f = none) (hok : PathOk (rootVal env r) fs) :
+    callMacro (runAt B (b + 1)) recTop env "has".toList this [pathCode r fs] log =
+      ((match readPath env r fs with
+        | .err .binding => .bool false
+        | .err .attribute => .bool false
+        | .err k => .err k
+        | _ => .bool true), log) := by
+  rw [has_spec, path_eval b env r fs log hb hp hc hok]
+  cases readPath env r fs with
+  | err k => cases k <;> rfl
+  | _ => rfl
+
+/-- The four data situations, per level. -/
+theorem field_present (m : VMap) (f : Str) (v : Val) (h : Map.get m f = some v) : field (.map m) f = v := by
+  simp [field, h]
+
+theorem field_missing_key (m : VMap) (f : Str) (h : Map.get m f = none) : field (.map m) f = .err .attribute := by
+  simp [field, h]
+
+theorem field_not_a_map (v : Val) (f : Str) (hm : ∀ m, v ≠ .map m) (he : v.isErr = false) :
+    field v f = .err .attribute := by
+  cases v <;> first | rfl | exact absurd rfl (hm _) | simp [Val.isErr] at he
+
+theorem field_of_failure (k : ErrKind) (f : Str) : field (.err k) f = .err k := rfl
+
+/-- An unbound root is a Binding failure, and stays one under any further fields. -/
+theorem readPath_root_unbound (env : Env) (r : Str) (fs : List Str)
+    (h1 : env.getType r = none) (h2 : env.getParam r = none) : readPath env r fs = .err .binding := by
+  have h0 : rootVal env r = .err .binding := by simp [rootVal, h1, h2]
+  unfold readPath
+  rw [h0]
+  induction fs with
+  | nil => rfl
+  | cons f fs ih => exact ih
+
+/-- A missing key (or non-map) at some level is an Attribute failure for the whole path. -/
+theorem readPath_absent_below (v : Val) (fs : List Str) (k : ErrKind) (h : v = .err k) :
+    fs.foldl field v = .err k := by
+  subst h
+  induction fs with
+  | nil => rfl
+  | cons f fs ih => exact ih
+
+end path
+
+/-! ### Non-vacuity -/
+
+private def noBuiltins : Builtins := { func := fun _ => none, ctor := fun _ _ => .null }
+private def demoEnv : Env :=
+  { params := [("r".toList, .map [("a".toList, .map [("b".toList, .null), ("n".toList, .int 3)])])] }
+-- r.a.b is null (a value), r.a.zz is a missing key, r.a.n.x reads a field of an int, q.a has an unbound root
+example : readPath demoEnv "r".toList ["a".toList, "b".toList] = .null := rfl
+example : readPath demoEnv "r".toList ["a".toList, "zz".toList] = .err .attribute := rfl
+example : readPath demoEnv "r".toList ["a".toList, "n".toList, "x".toList] = .err .attribute := rfl
+example : readPath demoEnv "q".toList ["a".toList] = .err .binding := rfl
+example : PathOk (rootVal demoEnv "r".toList) ["a".toList, "zz".toList] :=
+  ⟨(by intro s h; cases h), (by intro s h; cases h), trivial⟩
+example : (runAt noBuiltins 1 demoEnv (pathCode "r".toList ["a".toList, "zz".toList]) true []).res =
+    .error (.err .attribute) := by rfl
+example : (callMacro (runAt noBuiltins 1) (runAt noBuiltins 1) demoEnv "has".toList .null
+    [pathCode "r".toList ["a".toList, "b".toList]] []).1 = .bool true := by rfl
+example : (callMacro (runAt noBuiltins 1) (runAt noBuiltins 1) demoEnv "has".toList .null
+    [pathCode "q".toList ["a".toList, "b".toList]] []).1 = .bool false := by rfl
 
 /-! ### Non-vacuity: concrete callbacks -/
 
